@@ -65,6 +65,7 @@ type recEngine struct {
 	opts   sut.Options // options of the first server; restarts use restartOpts
 	c      *sut.Client
 	walDir string
+	hostDir string // <dataPath><hostID>/
 	qs, qe uint32
 
 	tsidOf   []uint64
@@ -134,6 +135,7 @@ func (e *recEngine) start() error {
 		return e.died("paths", err)
 	}
 	e.walDir = paths["wal"]
+	e.hostDir = paths["data"] + paths["host"] + "/"
 	return nil
 }
 
@@ -324,49 +326,73 @@ func (e *recEngine) baseline(stage string) error {
 	return nil
 }
 
-// rotationTargets: shard -> highest block id that currently has logged datapoints.
-func (e *recEngine) rotationTargets() (map[string]uint64, error) {
+// rotTarget describes, for one shard, the open block that a rotation is expected to close.
+type rotTarget struct {
+	segID, blockID uint64
+	logged         map[dpKey]bool // the datapoints its WAL files hold before the rotation
+}
+
+// rotationTargets: for every shard that currently has logged datapoints, the block they belong to
+// (highest block id among its WAL files with data) and the logged datapoints themselves.
+func (e *recEngine) rotationTargets() (map[string]*rotTarget, error) {
 	before, err := readDPWals(e.walDir)
 	if err != nil {
 		return nil, pt.Inconclusivef("%v", err)
 	}
-	want := map[string]uint64{}
+	want := map[string]*rotTarget{}
 	for _, wf := range before {
-		if len(wf.dps) > 0 {
-			if b, ok := want[wf.shard]; !ok || wf.blockID > b {
-				want[wf.shard] = wf.blockID
-			}
+		if len(wf.dps) == 0 {
+			continue
+		}
+		t := want[wf.shard]
+		if t == nil {
+			t = &rotTarget{segID: wf.segID, blockID: wf.blockID, logged: map[dpKey]bool{}}
+			want[wf.shard] = t
+		}
+		if wf.blockID > t.blockID {
+			t.blockID = wf.blockID
+		}
+		for _, dp := range wf.dps {
+			t.logged[dpKey{dp.Tsid, dp.Timestamp}] = true
 		}
 	}
 	return want, nil
 }
 
-// rotated reports whether every target shard has moved its WAL to a later block and dropped the old files.
-func (e *recEngine) rotated(want map[string]uint64) (bool, error) {
+// rotated reports whether every target shard has closed its block: the block files
+// <data>/<host>/final/ts/<shard>/<seg>/<seg>_<block>.tso/.tsg exist and none of the datapoints that
+// were in the shard's WAL files is in any WAL file of the shard any more. How the WAL files of the
+// next block are called is deliberately not part of the observation.
+func (e *recEngine) rotated(want map[string]*rotTarget) (bool, error) {
 	now, err := readDPWals(e.walDir)
 	if err != nil {
 		return false, pt.Inconclusivef("%v", err)
 	}
-	cur := map[string]uint64{}
-	hasOld := map[string]bool{}
 	for _, wf := range now {
-		if b, ok := cur[wf.shard]; !ok || wf.blockID > b {
-			cur[wf.shard] = wf.blockID
+		t := want[wf.shard]
+		if t == nil {
+			continue
 		}
-		if b, ok := want[wf.shard]; ok && wf.blockID <= b {
-			hasOld[wf.shard] = true
+		for _, dp := range wf.dps {
+			if t.logged[dpKey{dp.Tsid, dp.Timestamp}] {
+				return false, nil
+			}
 		}
 	}
-	for sh, b := range want {
-		if cur[sh] <= b || hasOld[sh] {
-			return false, nil
+	for sh, t := range want {
+		base := fmt.Sprintf("%sfinal/ts/%s/%d/%d_%d", e.hostDir, sh, t.segID, t.segID, t.blockID)
+		for _, ext := range []string{".tso", ".tsg"} {
+			st, err := os.Stat(base + ext)
+			if err != nil || st.Size() == 0 {
+				return false, nil
+			}
 		}
 	}
 	return true, nil
 }
 
 // markDurable: everything acknowledged so far for series of the rotated shards sits in a closed block.
-func (e *recEngine) markDurable(want map[string]uint64) {
+func (e *recEngine) markDurable(want map[string]*rotTarget) {
 	for i := range e.series {
 		if !e.haveTsid[i] {
 			continue
